@@ -24,10 +24,10 @@ RULE = ('ha-tie: C01 generators (random, constructed quotient ties, zero-vote/ca
         'upward move of w (one place up, to the top; approve w; raise w\'s score) and every added ballot ranking w first (a bullet vote for all rules; '
         'also longer ballots for the additive rules) must again give [w]. non-trivial = a tie in either result / '
         'a binding cap / previous gains (house, votes), or the move changes some candidate\'s standing (sole-winner); distinct by case hash')
-PARTIAL = ['Copeland / minimax / Schulze / Bucklin monotonicity: stated (C17_*_full_statement), decided per explored case by the relational checker, not proved',
+PARTIAL = ['minimax / Schulze / Bucklin monotonicity: stated (C17_*_full_statement), decided per explored case by the relational checker, not proved (Copeland is proved: C17_copeland)',
            'vote monotonicity with zero-vote parties or when the larger run ends in a tie or with caps exhausted: relational checker only',
-           'positional rules: the theorem C17_additive needs the per-ballot coefficient inequalities; they are proved for plurality and approval '
-           'images, and checked per case for the rank scorers']
+           'positional rules: C17_positional needs the scorer to be non-increasing at the two places; proved for Dowdall, modified Borda and '
+           'fixed top, checked per case for Borda, geometric and sequence-based scorers']
 TRUSTED = []
 ASSUMPTIONS = ['a "single ballot" is one unit of weight of one ballot type of the profile dictionary']
 
